@@ -615,9 +615,18 @@ class _G:
   def time(self, positive=False):
     tt = self.tt
     if self.chance(self.prof["p_arbitrary"]):
-      kinds = ["ms"] + (["f"] if tt["fps"] else []) + (["t"] if tt["tick"] else [])
+      kinds = ["ms"] + (["f", "cf"] if tt["fps"] else []) + (["t"] if tt["tick"] else [])
       k = self.d(st.sampled_from(kinds))
       lo = 1 if positive else 0
+      if k == "cf":
+        # hh:mm:ss:ff by construction: with a fractional effective frame rate only whole seconds before the first one have
+        # such a spelling by value; the frame field is biased to its two ends (0 and ttp:frameRate - 1)
+        whole = self.d(st.integers(0, 12))
+        ff = self.d(st.sampled_from([0, tt["fps"] - 1, tt["fps"] - 1, self.d(st.integers(0, tt["fps"] - 1))]))
+        if positive and whole == 0 and ff == 0:
+          whole = 1
+        v = F(whole) + F(ff) / eff_fps(tt)
+        return {"v": v, "x": "%02d:%02d:%02d:%02d" % (whole // 3600, (whole // 60) % 60, whole % 60, ff), "syn": "clockf", "q": (whole, ff)}
       if k == "ms":
         v = F(self.d(st.integers(lo, 12000)), 1000)
       elif k == "f":
@@ -941,6 +950,17 @@ def descs(draw, prof=None):
           styles[i]["refs"].append("nosuch0")
       else:
         styles[i]["refs"].append(d(st.sampled_from(higher)))
+  # two styles referenced by one style element rarely disagree on a property by chance (36 properties): steer half of the
+  # multi-reference style elements into such a disagreement on a property the referencing element does not set itself
+  by_sid = {x["id"]: x for x in styles}
+  for x in styles:
+    rs = [r for r in dict.fromkeys(x["refs"]) if r in by_sid]
+    if len(rs) >= 2 and g.chance(0.5):
+      a_id, b_id = d(st.permutations(rs))[:2]
+      own = {a["p"] for a in x["attrs"]}
+      cand = [a["p"] for a in by_sid[a_id]["attrs"] if a["p"] not in own and a["p"] not in {b["p"] for b in by_sid[b_id]["attrs"]}]
+      if cand:
+        by_sid[b_id]["attrs"].append(g.attr(d(st.sampled_from(cand))))
   g.style_ids = [x["id"] for x in styles]
   initials = []
   used = set()
@@ -1271,13 +1291,14 @@ class Timing:
         self.mark_never(k)
 
 
-def style_table(desc):
+def style_table(desc, conflicts_out=None):
   """TTML2 10.4.1.3 chained referential styling: flattened attribute set of each style element.  Referenced styles are applied in the
   order of reference (each with its own chain first), so later references override earlier ones; the style's own attributes come last."""
   by_id = {}
   for sty in desc["styles"]:
     by_id.setdefault(sty["id"], sty)
   memo = {}
+  conflicts = set()
 
   def flat(sid, stack):
     if sid in memo:
@@ -1289,6 +1310,9 @@ def style_table(desc):
     for r in by_id[sid]["refs"]:
       if r in by_id:
         sub, dp = flat(r, stack + (sid,))
+        own = {a["p"] for a in by_id[sid]["attrs"]}
+        if any(k in out and out[k] != sub[k] and k not in own for k in sub):
+          conflicts.add(sid)
         out.update(sub)
         depth = max(depth, dp + 1)
     for a in by_id[sid]["attrs"]:
@@ -1296,7 +1320,10 @@ def style_table(desc):
     memo[sid] = (out, depth)
     return memo[sid]
 
-  return {sid: flat(sid, ()) for sid in by_id}
+  out = {sid: flat(sid, ()) for sid in by_id}
+  if conflicts_out is not None:
+    conflicts_out.update(conflicts)
+  return out
 
 
 def to_docspec(desc, info=None):
@@ -1304,7 +1331,8 @@ def to_docspec(desc, info=None):
   trigger sites and the expected kind / lang / space of every element id."""
   tt = desc["tt"]
   timing = Timing(desc)
-  table = style_table(desc)
+  chain_conflicts = set()
+  table = style_table(desc, chain_conflicts)
   feat = set(timing.feat)
   spec = dict(lang=tt["lang"] if tt["lang"] is not None else "", cell=tuple(tt["cell"]) if tt["cell"] is not None else (32, 15),
               px=tuple(tt["extent"]) if tt["extent"] is not None else (1920, 1080), active_area=None, dar=None, initials={}, regions=[],
@@ -1328,6 +1356,8 @@ def to_docspec(desc, info=None):
     for r in n["refs"]:
       if r in table:
         sub, dp = table[r]
+        if r in chain_conflicts:
+          feat.add("chain-ref-order")
         for k in sub:
           if k in out and out[k] != sub[k]:
             feat.add("later-ref-overrides")
@@ -1421,6 +1451,8 @@ def to_docspec(desc, info=None):
     for k in ("begin", "dur", "end"):
       if n.get(k) is not None:
         feat.add("syn:" + n[k].get("syn", "?"))
+        if n[k].get("syn") == "clockf" and tt["fps"] and n[k]["q"][1] == tt["fps"] - 1 and eff_fps(tt).denominator != 1:
+          feat.add("clockf-last-frame-fractional-rate")
     for stp in n.get("sets", ()):
       for k in ("begin", "dur", "end"):
         if stp.get(k) is not None:
